@@ -138,7 +138,7 @@ theorem streamAttach_kw {s s' : State} {c o : Nat} (hh : streamAttach s c o = .o
   refine KWStep.of (allow := True) ?_ (fun _ hw => winv_same hw rfl rfl rfl rfl)
   intro hk
   have hname := (hk.oname o op h0).1
-  exact TStep.of_op (o2 := { op with waiters := op.waiters + 1 }) h0 rfl rfl rfl (by simp [attachS, hname]) rfl rfl hk
+  exact TStep.of_op (o2 := { op with waiters := op.waiters + 1 }) h0 rfl rfl id rfl (by simp [attachS, hname]) rfl rfl hk
 
 theorem streamLeave_kw {s s' : State} {c code : Nat} (hh : streamLeave s c code = .ok s') : KWStep s s' := by
   refine KWStep.of (streamLeave_tstep (allow := True) hh) (fun _ hw => ?_)
